@@ -71,8 +71,8 @@ CHECKS = [
   "default schedule only (the property fixes the observation order); no state merging because the reader's buffer is a goroutine local; harness wakers replace the poll timers",
   "explicit-state exploration of the implementation over operation histories on a real file system (multi-process BFS, replay from the initial state, list reference model)", "§3 C16"),
  ("C18", "hsx", "model_checking",
-  "all applicable histories of length <=4 (thorough 5) over {create, delete, append unique line, rename x3, mkdir/rmdir of a plain and of a pattern-matching directory name, poll} on the tree {d/a.log, d/b.log, d/a.log.gz, d/sub/c.log, d/x.log/} for 4 (thorough 6) pattern/ignore configurations (single glob, overlapping globs, relative+absolute spelling, nested+flat with ignore regex) through the real Tailer under the controlled scheduler; after every step: set of paths with a stream (read in-package) = existing regular files matching a pattern and not ignored, log_count agrees, every line appended to a tailed path delivered exactly once",
-  "renames onto an existing file are rotations (C16) and not generated; unreadable files and symlinks not generated; no state merging",
+  "all applicable histories of length <=4 (thorough 5-6) from the empty tree and from 'd/a.log created and polled' over {create, delete, append unique line (+stream wake), rename to a free name (+stream wake), mkdir/rmdir of a plain and of a pattern-matching directory name, wake streams, poll patterns} on {d/a.log, d/b.log, d/a.log.gz, d/sub/c.log, d/x.log/} for 6 (thorough 8) pattern/ignore configurations (single glob, overlapping globs, relative+absolute spelling, nested+flat with ignore regex, ignore regex anchored at the start of the name, ignore regex matching a directory name) through the real Tailer under the controlled scheduler; after a pattern poll every existing regular file matching a pattern and not ignored has a stream, nothing that never qualified has one, log_count = number of streams; no line is ever delivered twice or under a path it was not written to; a line appended to a path whose stream is on that very file is delivered once the streams are woken",
+  "stream wake-ups and pattern polls are explicit operations, so changes may pile up between polls; renames onto an existing file are rotations (C16) and not generated; unreadable files and symlinks not generated; no state merging",
   "explicit-state exploration of the implementation over file-system histories (multi-process BFS, replay from the initial state, set reference model)", "§3 C18"),
  ("C26", "hsx", "model_checking",
   "explicit-state BFS (depth 3; thorough 4-5) over histories of {write(file, contents T1/T2/broken), remove, rename to/from another program name / a non-.mtail name / a dot-name, mkdir of a matching name} on a real program directory holding a.mtail, b.mtail, .h.mtail, notes.txt, sub/c.mtail, each step followed by LoadAllPrograms and a probe line on the real Runtime under the controlled scheduler; per transition: running set and the contents each program was compiled from equal the model, the probe line moves exactly the marker counter of each running version, prog_loads_total / prog_unloads_total move by the model's event counts",
